@@ -756,6 +756,15 @@ class Interp:
             r.elem = a[0] if a else Other('elem')
             return r
         if isinstance(n.op, ast.BitOr):
+            if isinstance(a, DictV) and isinstance(b, DictV):
+                # dict union: on a key collision the RIGHT operand wins
+                d = DictV()
+                d.update(a)
+                d.update(b)
+                d.pairs = list(a.pairs) + list(b.pairs)
+                if getattr(a, 'open', False) or getattr(b, 'open', False):
+                    d.open = True
+                return d
             return Other('union')
         return self.arith(n.op, a, b, n)
 
@@ -1126,9 +1135,16 @@ class Interp:
             return Contents(Cont('filtered'), filt=kept)
         pairs = self.comp(n, lambda: (self.ev(n.key), self.ev(n.value)))
         d = DictV()
+        literal = True
         for k, v in pairs:
-            d[repr(k)] = v
-        d.open = True
+            key = k.t.text() if isinstance(k, S) and k.t.is_literal() else k.v if isinstance(k, Lit) else None
+            if key is None:
+                literal = False
+                d[repr(k)] = v
+            else:
+                d[key] = v
+        if not literal:
+            d.open = True
         return d
 
     def ev_Lambda(self, n):
